@@ -127,7 +127,8 @@ class controller_MPI(Controller):
                 self.logger.info(f'Starting next block with initial conditions from step {restart_at}')
 
             else:
-                uend = self.S.levels[0].uend.bcast(root=comm_active.size - 1, comm=comm_active)
+                # broadcast into a copy: uend itself may have been logged by a hook (e.g. LogSolution) and must keep this step's value
+                uend = self.S.levels[0].prob.dtype_u(self.S.levels[0].uend).bcast(root=comm_active.size - 1, comm=comm_active)
                 tend = comm_active.bcast(self.S.time + self.S.dt, root=comm_active.size - 1)
 
             # do convergence controller stuff
